@@ -59,6 +59,9 @@ var alphabet = []symbol{
 	{"exchange", "genuine"}, {"exchange", "tampered-ciphertext"}, {"exchange", "tampered-tag"}, {"exchange", "short"}, {"exchange", "replay"},
 	{"exchange", "zero-key"}, {"exchange", "hkdf-of-empty-secret"}, {"exchange", "random-key"}, {"exchange", "signed-by-other-key"},
 	{"exchange", "permuted-material"}, {"exchange", "name-swapped"}, {"exchange", "key-swapped"},
+	// the NAME of a controller that is stored already, a NEW key, signed with the STORED controller's key (not with the key
+	// that is delivered): nobody proved to own the delivered key
+	{"exchange", "stored-name-new-key-signed-by-stored-key"},
 	{"step", "0"}, {"step", "7"}, {"step", "255"}, {"method", "1"}, {"method", "3"}, {"method", "4"},
 	// a complete, consistent SRP run with a password anybody can know (see publicGuesses); the key exchange that follows is
 	// sealed under the key of THAT run
@@ -110,6 +113,7 @@ type world struct {
 	lastGoodLTPK, lastGoodK []byte
 	fixedConns              []int             // when set: the connection of each step (targeted histories)
 	expect                  map[string][]byte // model of stored controllers: name -> ltpk
+	lastIdentity            *refctl.Identity  // the controller stored by the last legitimate key exchange (name, key pair)
 	public                  map[string]string // see publicGuesses
 	storedNow               map[string][]byte // the snapshot before the message that is being built
 	intruders               int
@@ -313,6 +317,22 @@ func build(w *world, p *peer, s symbol) built {
 			b.name = "admin-" + me.ID
 			b.msg = refctl.SetupM5(encKey, e.Bytes(refctl.TagIdentifier, []byte(b.name)).Bytes(refctl.TagPublicKey, me.LTPK).Bytes(refctl.TagSignature, ed25519.Sign(me.LTSK, info)).B)
 			return b
+		case "stored-name-new-key-signed-by-stored-key":
+			old := w.lastIdentity
+			if old == nil {
+				old = p.me
+			}
+			if _, in := w.storedNow[old.ID]; !in {
+				old = p.me
+			}
+			nw := refctl.NewIdentity(old.ID, w.rnd)
+			x := refctl.HKDF512(K, "Pair-Setup-Controller-Sign-Salt", "Pair-Setup-Controller-Sign-Info")
+			info := append(append(append([]byte{}, x[:]...), []byte(nw.ID)...), nw.LTPK...)
+			e := &refctl.Enc{}
+			b.name, b.ltpk = nw.ID, nw.LTPK
+			b.msg = refctl.SetupM5(encKey, e.Bytes(refctl.TagIdentifier, []byte(nw.ID)).Bytes(refctl.TagPublicKey, nw.LTPK).Bytes(refctl.TagSignature, ed25519.Sign(old.LTSK, info)).B)
+			run.Count("exchanges_for_a_stored_name_with_a_new_key_signed_by_the_stored_key", 1)
+			return b
 		case "key-swapped":
 			other := refctl.NewIdentity("x", w.rnd)
 			x := refctl.HKDF512(K, "Pair-Setup-Controller-Sign-Salt", "Pair-Setup-Controller-Sign-Info")
@@ -459,6 +479,9 @@ func runHistory(hno int, tr transport, w *world, seq []symbol, nconn int, harnes
 			run.Count("legitimate_stores", 1)
 			w.lastGood = b.msg
 			w.lastStored = b.name
+			if b.name == p.me.ID && bytes.Equal(b.ltpk, p.me.LTPK) {
+				w.lastIdentity = p.me
+			}
 			w.lastGoodName, w.lastGoodLTPK = b.name, b.ltpk
 			if p.srp != nil {
 				w.lastGoodK = p.srp.K
@@ -605,7 +628,7 @@ func randomCode(rnd *rand.Rand) string {
 func main() {
 	run = vf.Start("C02", "exploration")
 	r := run
-	r.SetRule("a history = (setup code, controller identities, 1 or 2 connections sharing one database, sequence over the pair-setup alphabet of 36 symbols (6 of them complete SRP runs with a password anybody can know: accessory id / name, empty, the SRP user name, the code's digits, the library's default pin)); every sequence up to length 2 (quick) / 3 (thorough) over a 16-symbol core alphabet, " +
+	r.SetRule("a history = (setup code, controller identities, 1 or 2 connections sharing one database, sequence over the pair-setup alphabet of 37 symbols (6 of them complete SRP runs with a password anybody can know: accessory id / name, empty, the SRP user name, the code's digits, the library's default pin)); every sequence up to length 2 (quick) / 3 (thorough) over a 16-symbol core alphabet, " +
 		"the known critical prefixes followed by every symbol, and random sequences of length 3..8; after every message the stored entities are compared with the previous snapshot; non-trivial = distinct (harness, connections, sequence)")
 	r.Assume("the monitor builds every message itself and therefore knows whether the connection proved knowledge of the setup code; crypto/ed25519, x/crypto AEAD are correct")
 	r.Watchdog(time.Duration(r.Pick(20, 90)) * time.Minute)
@@ -755,6 +778,12 @@ func main() {
 		inprocDo(append([]symbol{{"start", ""}, {"verify", "right"}, {"start", ""}}, tail...), 1)
 		inprocDo(append([]symbol{{"start", ""}, {"exchange", "zero-key"}}, tail...), 1)
 	}
+	// a second, PROVED exchange that names the controller stored by the first one and delivers another key
+	for _, e := range []string{"stored-name-new-key-signed-by-stored-key", "key-swapped", "signed-by-other-key"} {
+		inprocDo([]symbol{{"start", ""}, {"verify", "right"}, {"exchange", "genuine"}, {"start", ""}, {"start", ""}, {"verify", "right"}, {"exchange", e}}, 1)
+		inprocDo([]symbol{{"start", ""}, {"verify", "right"}, {"exchange", "genuine"}, {"start", ""}, {"verify", "right"}, {"exchange", e}}, 2)
+		inprocDo([]symbol{{"start", ""}, {"verify", "right"}, {"exchange", "genuine"}, {"start", ""}, {"verify", "right"}, {"exchange", e}}, 1)
+	}
 	// a fault at one step: the entropy source fails while one message is handled (a session that cannot be renewed, a
 	// nonce that cannot be drawn); what a peer without the code sends next must still store nothing
 	for _, v := range alphabet {
@@ -843,6 +872,7 @@ func main() {
 	r.Floor("inproc_messages", int(r.Counter("inproc_messages")), 1500)
 	r.Floor("fullstack_messages", int(r.Counter("fullstack_messages")), 400)
 	r.Floor("legitimate_stores", int(r.Counter("legitimate_stores")), 10)
+	r.Floor("exchanges_for_a_stored_name_with_a_new_key_signed_by_the_stored_key", int(r.Counter("exchanges_for_a_stored_name_with_a_new_key_signed_by_the_stored_key")), 20)
 	r.Floor("messages_handled_while_the_entropy_source_fails", int(r.Counter("messages_handled_while_the_entropy_source_fails")), 300)
 	r.Floor("verify_with_public_guess", int(r.Counter("verify_with_public_guess")), 150)
 	r.Floor("forged_exchanges_with_a_new_identity_after_a_store", int(r.Counter("forged_exchanges_with_a_new_identity_after_a_store")), 10)
